@@ -82,6 +82,10 @@ pub fn run(ctx: &Ctx, ev: &mut Ev) {
         let toks = iso2022jp_tokens();
         let idx: Vec<usize> = (0..toks.len()).collect();
         for seq in strings_over(&idx, if th { 5 } else { 4 }).iter() { if seq.is_empty() || !ev.mine() { continue; } let mut s = vec![]; for t in seq { s.extend_from_slice(toks[*t]); } c.check(ev, ISO_2022_JP, &s, true); }
+        let ut = utf8_tokens();
+        let idx: Vec<usize> = (0..ut.len()).collect();
+        for seq in strings_over(&idx, if th { 4 } else { 3 }).iter() { if seq.is_empty() || !ev.mine() { continue; } let mut s = vec![]; for t in seq { s.extend_from_slice(ut[*t]); } c.check(ev, UTF_8, &s, true); }
+        for seq in strings_over(&UTF16_UNITS, if th { 5 } else { 4 }).iter() { if seq.is_empty() || !ev.mine() { continue; } for enc in [UTF_16LE, UTF_16BE] { for odd in [false, true] { let mut s = vec![]; for u in seq.iter() { if enc == UTF_16LE { s.push(*u as u8); s.push((*u >> 8) as u8); } else { s.push((*u >> 8) as u8); s.push(*u as u8); } } if odd { s.push(0xDC); } c.check(ev, enc, &s, true); } } }
         let gt = gb18030_tokens();
         let idx: Vec<usize> = (0..gt.len()).collect();
         for seq in strings_over(&idx, if th { 4 } else { 3 }).iter() { if seq.is_empty() || !ev.mine() { continue; } let mut s = vec![]; for t in seq { s.extend_from_slice(gt[*t]); } c.check(ev, GB18030, &s, true); if th { c.check(ev, GBK, &s, true); } }
